@@ -316,7 +316,112 @@ pub fn run(rep: &mut Report, thorough: bool) {
             Err(e) => rep.violation("C11 dump failed on a target whose leader exited", json!({"error": e})),
         }
     }
+    cpuinfo_variants(rep, &mut rng, thorough);
     rep.require("failspot_subsets_run", 32);
     rep.require("natural_failure_dumps", 3);
     rep.require("nothing_failed_dumps", 1);
+}
+
+
+/// Machines report many shapes of /proc/cpuinfo. The worker dumps under a private mount
+/// namespace in which a generated cpuinfo is bind-mounted over the real one; whatever the file
+/// looks like, reading CPU information is best-effort: the dump is Ok and a failure is reported.
+fn cpuinfo_variants(rep: &mut Report, rng: &mut Rng, thorough: bool) {
+    use crate::props::c02::{run_worker, WorkerOutcome};
+    let real = std::fs::read_to_string("/proc/cpuinfo").unwrap_or_default();
+    if real.is_empty() {
+        rep.inconclusive("cannot read /proc/cpuinfo".into());
+        return;
+    }
+    let dir = crate::target::new_dir("cpuinfo");
+    let replace = |text: &str, key: &str, val: Option<&str>| -> String {
+        text.lines()
+            .filter_map(|l| {
+                if l.split(':').next().map(|k| k.trim()) == Some(key) {
+                    val.map(|v| format!("{}: {}", l.split(':').next().unwrap(), v))
+                } else {
+                    Some(l.to_string())
+                }
+            })
+            .collect::<Vec<_>>()
+            .join("\n")
+            + "\n"
+    };
+    let mut variants: Vec<(String, String, bool)> = Vec::new(); // (name, text, all fields present)
+    for v in ["  Shanghai  ", "SiS SiS SiS", "E2K MACHINE", "Vortex86 SoC", "HygonGenuine", "GenuineIntelGenuineIntel", "x", ""] {
+        variants.push((format!("vendor_id={v:?}"), replace(&real, "vendor_id", Some(v)), true));
+    }
+    variants.push(("no vendor_id line".into(), replace(&real, "vendor_id", None), true));
+    variants.push(("no model line".into(), replace(&real, "model", None), false));
+    variants.push(("no stepping line".into(), replace(&real, "stepping", None), false));
+    variants.push(("no cpu family line".into(), replace(&real, "cpu family", None), false));
+    variants.push(("empty stepping value".into(), replace(&real, "stepping", Some("")), false));
+    variants.push(("non-numeric model".into(), replace(&real, "model", Some("unknown")), false));
+    variants.push(("empty file".into(), String::new(), false));
+    variants.push(("only blank lines".into(), "\n\n\n".into(), false));
+    let mut many = String::new();
+    for i in 0..(if thorough { 1024 } else { 300 }) {
+        many.push_str(&format!("processor\t: {i}\nvendor_id\t: AuthenticAMD\ncpu family\t: 25\nmodel\t\t: 1\nmodel name\t: many cores\nstepping\t: 1\n\n"));
+    }
+    variants.push(("many processors".into(), many, true));
+    variants.push(("arm-like (no x86 fields)".into(), "processor\t: 0\nBogoMIPS\t: 50.00\nFeatures\t: fp asimd\nCPU implementer\t: 0x41\n\n".into(), false));
+    let sc = match scen::build_target(rng, &TargetCfg { sentinels: 2, max_spinners: 0, ..Default::default() }) {
+        Ok(s) => s,
+        Err(e) => {
+            rep.inconclusive(format!("target did not start: {e}"));
+            return;
+        }
+    };
+    for (k, (name, text, complete)) in variants.iter().enumerate() {
+        let path = format!("{dir}/cpuinfo-{k}");
+        std::fs::write(&path, text).unwrap();
+        let mut o = DumpOpts::new(sc.target.pid, sc.target.pid);
+        o.cpuinfo_override = Some(path.clone());
+        o.image_out = Some(format!("{dir}/image-{k}"));
+        sc.target.settle();
+        let r = run_worker(&o, false);
+        rep.case(fnv(format!("cpuinfo/{name}").as_bytes()), true);
+        rep.count("cpuinfo_variants_run", 1);
+        let case = json!({"cpuinfo_variant": name});
+        match r {
+            WorkerOutcome::Ok => {
+                let Ok(img) = std::fs::read(format!("{dir}/image-{k}")) else {
+                    rep.inconclusive(format!("no image from worker for {name}"));
+                    continue;
+                };
+                let im = image::decode(&img);
+                for (kk, m) in generic_invariants(&im) {
+                    rep.violation(&format!("C11 {kk}"), json!({"case": case, "message": m}));
+                }
+                let soft = im.soft_errors().unwrap_or(Value::Null);
+                let reported = top_entry(&soft, "WriteSystemInfoErrors").iter().any(|v| v.as_array().map(|a| a.iter().any(|x| x.get("WriteCpuInformationFailed").is_some())).unwrap_or(false));
+                if !*complete && !reported {
+                    rep.violation("C11 incomplete CPU information not reported as a soft error", json!({"case": case, "soft_errors": soft}));
+                }
+                if *complete && reported {
+                    rep.violation("C11 CPU information failure reported although every field is present", json!({"case": case, "soft_errors": soft}));
+                }
+                // the vendor string the machine reports (first 12 bytes)
+                if *complete {
+                    let vendor = text.lines().find(|l| l.starts_with("vendor_id")).and_then(|l| l.split(':').nth(1)).map(|v| v.trim().to_string()).unwrap_or_default();
+                    if let Some(s) = &im.sysinfo {
+                        let n = vendor.len().min(12);
+                        if s.cpu[..n] != vendor.as_bytes()[..n] {
+                            rep.violation("C18 system info vendor differs from the machine's cpuinfo", json!({"case": case, "vendor": vendor, "got": String::from_utf8_lossy(&s.cpu[..12])}));
+                        }
+                    }
+                }
+                if im.raw.get(&image::ST_LINUX_CPU_INFO).map(|b| b.as_slice()) != Some(text.as_bytes()) && !text.is_empty() {
+                    rep.violation("C18 cpuinfo stream is not a copy of the machine's cpuinfo", json!({"case": case}));
+                }
+            }
+            WorkerOutcome::Harness(e) => rep.inconclusive(format!("cpuinfo override unavailable: {e}")),
+            other => rep.violation(
+                &format!("C11 dump did not succeed when the machine's cpuinfo is unusual ({})", match &other { WorkerOutcome::Panic { location, .. } => format!("panic at {location}"), WorkerOutcome::Err(_) => "Err".to_string(), _ => "abort/timeout".to_string() }),
+                json!({"case": case, "outcome": format!("{other:?}")}),
+            ),
+        }
+    }
+    let _ = std::fs::remove_dir_all(&dir);
+    rep.require("cpuinfo_variants_run", 10);
 }
